@@ -1,7 +1,7 @@
 """C10 - containers summarise their children and book nothing (DESIGN 4, C10).
 
 All ordered task forests with <= 4 (thorough: 5) nodes and depth <= 3 that contain a container x leaf
-kind (schedulable / self-dependent = unschedulable / on a never-working resource / milestone) x dated
+kind (schedulable / self-dependent = unschedulable / on a never-working resource / milestone / allocating a resource group / group as primary or as alternative candidate) x dated
 first container (none / start / start+end / end) x ASAP / ALAP.
 """
 import itertools
@@ -15,7 +15,7 @@ ASSUME = [
     "roll-up oracle at every nesting level: container scheduled <=> all children scheduled; then start = earliest child start and end = latest child end",
     "the ledger may contain leaf tasks and leaf resources only",
 ]
-KINDS = ["ok", "cyc", "dead", "ms", "grp"]
+KINDS = ["ok", "cyc", "dead", "ms", "grp", "galt", "altg"]
 DATED = [None, "start", "both", "end"]
 
 
@@ -53,6 +53,8 @@ def universe(tier):
                     for alap in (False, True):
                         if tier == "quick" and n == 4 and (dated or (alap and "grp" not in kinds)) and len(set(kinds)) > 2:
                             continue
+                        if tier == "quick" and n == 4 and sum(k in ("galt", "altg") for k in kinds) > 1:
+                            continue
                         yield {"f": f, "kinds": kinds, "dated": dated, "alap": alap}
 
 
@@ -80,7 +82,11 @@ def to_spec(it):
                     node["milestone"] = True
                 else:
                     node["effort"] = 90
-                    node["alloc"] = ["rdead" if k == "dead" else ("team" if k == "grp" else "r1")]
+                    node["alloc"] = ["rdead" if k == "dead" else ("team" if k in ("grp", "galt") else "r1")]
+                    if k == "galt":      # a group as primary candidate, a person as alternative
+                        node["alt"] = ["r1"]
+                    elif k == "altg":    # a person as primary candidate (shared, so often busy), a group as alternative
+                        node["alt"] = ["team"]
                     if k == "cyc":
                         node["deps"] = ["!" + tid]
             out.append(node)
